@@ -109,11 +109,42 @@ def extract(fn):
     return [(c[2], s[2]) for c, s in zip(comp, subs)]
 
 
+FULL = z3.Full(z3.ReSort(z3.StringSort()))
+
+
+def _split_assertions(pattern):
+    """(lookbehinds, core items, lookaheads): leading (?<=..)/(?<!..) and trailing (?=..)/(?!..) are split off and
+    become constraints on the text before / after a match; assertions anywhere else are not encodable."""
+    items = list(sre_parse.parse(pattern))
+    lb, la = [], []
+    while items and items[0][0] in (sre_c.ASSERT, sre_c.ASSERT_NOT) and items[0][1][0] == -1:
+        op, (d, sub) = items.pop(0)
+        lb.append((op == sre_c.ASSERT, S._tr(sub)))
+    while items and items[-1][0] in (sre_c.ASSERT, sre_c.ASSERT_NOT) and items[-1][1][0] == 1:
+        op, (d, sub) = items.pop()
+        la.append((op == sre_c.ASSERT, S._tr(sub)))
+    for op, av in items:
+        if op in (sre_c.ASSERT, sre_c.ASSERT_NOT, sre_c.AT):
+            raise S.Untranslatable("assertion/anchor inside the pattern")
+    return lb, items, la
+
+
+def _ctx_ok(lb, la, pre, post):
+    cons = []
+    for pos, r in lb:
+        c = z3.InRe(pre, z3.Concat(FULL, r))
+        cons.append(c if pos else z3.Not(c))
+    for pos, r in la:
+        c = z3.InRe(post, z3.Concat(r, FULL))
+        cons.append(c if pos else z3.Not(c))
+    return z3.And(*cons) if cons else z3.BoolVal(True)
+
+
 def _longest_match_shape(pattern):
     """True iff Python's backtracking match of `pattern` at a position is the longest match: a sequence of
-    fixed-length items followed by at most one greedy repeat of a single-character item, no alternation."""
-    p = sre_parse.parse(pattern)
-    items = list(p)
+    fixed-length items followed by at most one greedy repeat of a single-character item, no alternation
+    (look-around assertions at the two ends do not consume text and are ignored here)."""
+    _lb, items, _la = _split_assertions(pattern)
     for i, (op, av) in enumerate(items):
         if op in (sre_c.LITERAL, sre_c.NOT_LITERAL, sre_c.IN, sre_c.ANY, sre_c.CATEGORY):
             continue
@@ -178,7 +209,8 @@ def _token(m, with_cls=True):
 
 def _queries_regex1(fn, tag, lit, repl, tier):
     obs = []
-    R1 = S.regex_to_z3(lit)
+    lb, core_items, la = _split_assertions(lit)
+    R1 = S._tr(core_items)
     (iso, sym, chi, hc, chg, cls), G = grammar()
     mv = {"iso": iso, "sym": sym, "chi": chi, "hc": hc, "chg": chg, "cls": cls}
     real = re.compile(lit)
@@ -198,9 +230,11 @@ def _queries_regex1(fn, tag, lit, repl, tier):
                    replay=lambda m: {"reproduced": real.fullmatch(m["s"]) is not None and not m["s"].startswith(":"), "outcome": "fullmatch(%r)" % m["s"]}))
     obs.append(_ob("%s.grammar.one-colon" % tag, "regex1", G + [z3.Contains(z3.Concat(iso, sym, chi, hc, chg), z3.StringVal(":"))], mv,
                    "no bracket-atom field other than the class contains ':'", tier))
-    obs.append(_ob("%s.regex1.class-matched-in-full" % tag, "regex1", G + [cls != z3.StringVal(""), z3.Not(z3.InRe(cls, R1))], mv,
-                   "every non-empty class field ':n' is matched in full by %r" % lit, tier, replay=rep_token))
     tail = z3.String("tail")
+    pre_tok = z3.Concat(z3.StringVal("["), iso, sym, chi, hc, chg)
+    obs.append(_ob("%s.regex1.class-matched-in-full" % tag, "regex1",
+                   G + [cls != z3.StringVal(""), z3.Not(z3.And(z3.InRe(cls, R1), _ctx_ok(lb, la, pre_tok, z3.Concat(z3.StringVal("]"), tail))))], dict(mv, tail=tail),
+                   "every non-empty class field ':n' is matched in full by %r, whatever stands before it inside the bracket and after the bracket" % lit, tier, replay=rep_token))
     obs.append(_ob("%s.regex1.no-overrun" % tag, "regex1", G + [cls != z3.StringVal(""), z3.InRe(z3.Concat(cls, z3.StringVal("]"), tail), R1)], dict(mv, tail=tail),
                    "no match of %r starting at the class field extends beyond it" % lit, tier,
                    replay=lambda m: {"reproduced": real.match(m["cls"] + "]" + m["tail"]).end() > len(m["cls"]), "outcome": "match overruns"}))
@@ -212,7 +246,8 @@ def _queries_regex1(fn, tag, lit, repl, tier):
     nb = z3.Star(z3.Union(*[_lit(c) for c in "BCNOPSFIlrbcnopsae-=#$:/\\0123456789%()."]))
     region = S.contains_match(z3.Concat(_lit(":"), DIGIT))
     known = kf.active(KF_AROM)
-    asr = [z3.InRe(s, nb), z3.InRe(s, S.contains_match(R1))]
+    pre, mid, post = z3.String("pre"), z3.String("mid"), z3.String("post")
+    asr = [z3.InRe(s, nb), s == z3.Concat(pre, mid, post), z3.InRe(mid, R1), _ctx_ok(lb, la, pre, post)]
     if known:
         asr.append(z3.Not(z3.InRe(s, region)))
     obs.append(_ob("%s.regex1.outside-brackets%s" % (tag, "[outside known region]" if known else ""), "regex1", asr, {"s": s},
@@ -368,9 +403,13 @@ def extra(tier):
 
 
 def replay(data):
-    """Re-run the queries on the current tree; the violation reproduces iff the same obligation is violated again."""
-    name = data.get("name")
+    """Re-run the queries on the current tree (known-finding regions switched off, so that a recorded model inside a
+    region is found again); the violation reproduces iff the same obligation is violated again."""
+    import os
+
+    os.environ["VERIF_KF_IGNORE"] = ",".join([KF_HYDRIDE, KF_AROM])
+    base = (data.get("name") or "").split("[outside known region]")[0]
     for ob in extra("quick")["obligations"]:
-        if ob["name"] == name:
+        if ob["name"].split("[outside known region]")[0] == base:
             return {"reproduced": ob["status"] == "violation", "detail": ob.get("detail")}
-    return {"reproduced": False, "detail": "obligation %r no longer exists" % name}
+    return {"reproduced": False, "detail": "obligation %r no longer exists" % base}
